@@ -66,6 +66,13 @@ class SchedRun:
         self.waiting = {}                  # flow -> [pkts] arrived, service not started
         self.rec = Rec(env, on_put=self._dep)
         self.sched.out = self.rec
+        # 'twin': a second instance of the same scheduler class in the same environment, fed a copy of every packet at the
+        # same instant: instances share nothing, so both must behave as if alone (and the twin exactly like the first)
+        self.twin = None
+        if cfg.get('twin'):
+            self.twin = make_sched(env, self.kind, self.rate, self.table, flow2class)
+            self.twin_rec = Rec(env)
+            self.twin.out = self.twin_rec
         self.Packet = Packet
         env.process(self._source())
         self.stepping = stepping
@@ -113,6 +120,8 @@ class SchedRun:
             if self.on_put:
                 self.on_put(pkt)
             self.sched.put(pkt)
+            if self.twin is not None:
+                self.twin.put(mk_packet(self.Packet, ctime, size, 1000 + k, flow_id=self.flows[k]))
             self.check_counters('put')
 
     def _after_step(self):
@@ -153,6 +162,18 @@ class SchedRun:
         check(tag + '.each-once', len(ids) == len(set(ids)) and len(ids) == self.n and not self.held,
               'departed %s of %d' % ([p.packet_id for p, _ in self.departs], self.n))
         return len(ids) == self.n and len(set(ids)) == self.n
+
+    def check_twin(self, tag='c12'):
+        if self.twin is None:
+            return
+        mine = [(p.packet_id, D) for p, D in self.departs]
+        other = [(p.packet_id - 1000, D) for p, D in self.twin_rec.log]
+        check(tag + '.instances-independent', len(mine) == len(other) and all(a[0] == b[0] for a, b in zip(mine, other)),
+              ([a[0] for a in mine], [b[0] for b in other]))
+        if len(mine) == len(other):
+            for a, b in zip(mine, other):
+                check(tag + '.instances-independent', eq(a[1], b[1]), a[0])
+        cover('two-instances')
 
     def check_fifo_per_flow(self, tag='c12'):
         for f in sorted(set(self.flows)):
